@@ -1,5 +1,173 @@
-import Dagrt.Model.Builder
+import Dagrt.Proofs.BuilderProofs
+import Dagrt.Proofs.Sched
+/-!
+# C02 — recorded dependencies make every admissible schedule equal to program order
+
+Model: `Dagrt.Builder` (`Model/Builder.lean`) = `CodeBuilder._add_statement`, `if_`/`else_`,
+`fresh_var_name`; `Dagrt.Sem` = the statement semantics of C08.  Statement ids are program
+positions.  The events yielded so far and the status of the step (running / failed / switched /
+raised) are the value of the pseudo-variable `<exec>`, which every statement reads and every
+non-assignment writes — the builder's own view of side effects — so "same events, same abort,
+same final values" is equality of stores.
+Theorems are for every sequence of builder calls, every linear extension of the emitted
+dependency lists, every initial store and every (total, pure) interpretation of the functions.
+-/
 namespace Dagrt.C02
-open Dagrt.Builder
-theorem init_n : Core.init.n = 0 := rfl
+open Dagrt Dagrt.Sem Dagrt.Builder
+
+/-- the emitted statements, in program order -/
+def prog (ops : List BOp) : List Stmt := (run ops).out.map (·.1)
+
+/-- what executing statement `i` does to the store -/
+def sem (F : Funs) (ops : List BOp) (i : Nat) (σ : Store) : Store :=
+  match (prog ops)[i]? with
+  | some s => exec F s σ
+  | none => σ
+
+/-- dependency edges only point backwards in program order -/
+theorem deps_backward (ops : List BOp) : ∀ k d, d ∈ (run ops).core.D k → d < k :=
+  (run_ok ops).1.back
+
+/-- every conflict between an earlier statement `i` and a later statement `k` (write/read,
+    write/write, read/write on any name — guards, subscripts, loop bounds, call arguments, the
+    persistent names a non-assignment is a barrier for, and `<exec>`) is covered by a path of
+    recorded dependency edges from `k` back to `i` -/
+theorem conflict_reaches (ops : List BOp) : ∀ i k, i < k → k < (run ops).core.n →
+    Conflict (run ops).core i k → ∃ d, d ∈ (run ops).core.D k ∧ Reach (run ops).core.D i d :=
+  (run_ok ops).1.cr
+
+/-- the `depends_on` attribute of each emitted statement is what the bookkeeping computed -/
+theorem emitted_deps (ops : List BOp) (k : Nat) (s : Stmt) (d : List Nat)
+    (h : (run ops).out[k]? = some (s, d)) : d = (run ops).core.D k :=
+  (run_ok ops).2.deps k s d h
+
+theorem prog_length (ops : List BOp) : (prog ops).length = (run ops).core.n := by
+  simp [prog, (run_ok ops).2.len]
+
+theorem prog_get (ops : List BOp) {i : Nat} {s : Stmt} (h : (prog ops)[i]? = some s) :
+    ∃ d, (run ops).out[i]? = some (s, d) := by
+  simp only [prog, List.getElem?_map] at h
+  cases ho : (run ops).out[i]? with
+  | none => simp [ho] at h
+  | some p => simp [ho] at h; exact ⟨p.2, by rw [← h]⟩
+
+/-- two statements without a conflict in the builder's effective sets commute -/
+theorem no_conflict_comm (F : Funs) (ops : List BOp) (a b : Nat) (_hba : b < a)
+    (hnc : ¬ Conflict (run ops).core b a) : Sched.Comm (sem F ops) a b := by
+  intro σ
+  unfold sem
+  cases ha : (prog ops)[a]? with
+  | none => rfl
+  | some sa =>
+    cases hb : (prog ops)[b]? with
+    | none => rfl
+    | some sb =>
+      simp only
+      obtain ⟨da, hoa⟩ := prog_get ops ha
+      obtain ⟨db, hob⟩ := prog_get ops hb
+      have ok := (run_ok ops).2
+      have hWa := ok.wset a sa da hoa
+      have hWb := ok.wset b sb db hob
+      have hRa := ok.rset a sa da hoa
+      have hRb := ok.rset b sb db hob
+      apply exec_comm F sa sb
+      · intro x hx
+        rw [hWa] at hx
+        constructor
+        · intro hr
+          apply hnc; right
+          rcases hRb x hr with h | h
+          · exact ⟨x, h, hx⟩
+          · exact absurd (Or.inl ⟨x, h, Or.inr hx⟩) hnc
+        · intro hw; rw [hWb] at hw
+          exact hnc (Or.inl ⟨x, hw, Or.inr hx⟩)
+      · intro x hx
+        rw [hWb] at hx
+        constructor
+        · intro hr
+          apply hnc; left
+          rcases hRa x hr with h | h
+          · exact ⟨x, hx, Or.inl h⟩
+          · exact ⟨x, hx, Or.inr h⟩
+        · intro hw; rw [hWa] at hw
+          exact hnc (Or.inl ⟨x, hx, Or.inr hw⟩)
+
+/-- **Main theorem.** Executing the emitted statements in ANY order that is a permutation of the
+    statements and respects the recorded dependency edges gives the same store — hence the same
+    events, the same failure / phase switch / raised error and the same final value of every
+    variable — as executing them in the order they were written. -/
+theorem any_schedule_eq_program_order (ops : List BOp) (F : Funs) (π : List Nat) (σ : Store)
+    (hperm : π.Perm (List.range (prog ops).length))
+    (hlin : LinExt (run ops).core.D π) :
+    Sched.exec (sem F ops) π σ = Sched.exec (sem F ops) (List.range (prog ops).length) σ := by
+  rw [← Sched.isort_of_perm_range hperm]
+  symm
+  apply Sched.exec_isort
+  have hnd : π.Nodup := (List.Perm.nodup_iff hperm).mpr List.nodup_range
+  rw [List.pairwise_iff_getElem]
+  intro i j hi hj hij hlt
+  -- a = π[i] runs before b = π[j] although b < a: they must not conflict
+  apply no_conflict_comm F ops _ _ hlt
+  intro hc
+  have han : π[i] < (run ops).core.n := by
+    have : π[i] ∈ List.range (prog ops).length := hperm.mem_iff.mp (List.getElem_mem hi)
+    rw [prog_length] at this; simpa using this
+  obtain ⟨d, hd, hr⟩ := conflict_reaches ops π[j] π[i] hlt han hc
+  have hr' : Reach (run ops).core.D π[j] π[i] := Reach.step hd hr
+  have hsplit : π = π.take i ++ π[i] :: π.drop (i + 1) := by
+    rw [List.getElem_cons_drop, List.take_append_drop]
+  rcases reach_before hlin hr' (π.take i) (π.drop (i + 1)) hsplit with e | hmem
+  · omega
+  · -- π[j] occurs at a position before i as well: contradicts Nodup
+    obtain ⟨k, hk, hke⟩ := List.getElem_of_mem hmem
+    have hk' : k < i := by simpa [List.length_take] using (Nat.lt_of_lt_of_le hk (by simp [List.length_take]; omega))
+    have : π[k]'(by omega) = π[j] := by rw [← hke, List.getElem_take]
+    have hne := (List.pairwise_iff_getElem.mp hnd) k j (by omega) hj (by omega)
+    exact hne this
+
+/-- names handed out by the builder: a name returned by `fresh_var_name` was not in use … -/
+theorem fresh_not_seen (st : BState) (p : Name) (h : (freshVar st p).1.failed = st.failed) :
+    (freshVar st p).2 ∉ st.seen ∨ st.failed ≠ none ∨ (freshVar st p).1.failed ≠ none := by
+  unfold freshVar
+  cases hs : freshSearch st.seen p (st.seen.length + 2) (genCount st.gens p) with
+  | none => right; right; simp [hs]
+  | some r =>
+    left
+    obtain ⟨nm, k⟩ := r
+    simp only
+    have : ∀ fuel k0, freshSearch st.seen p fuel k0 = some (nm, k) → nm ∉ st.seen := by
+      intro fuel
+      induction fuel with
+      | zero => intro k0 h; simp [freshSearch] at h
+      | succ f ih =>
+        intro k0 h
+        unfold freshSearch at h
+        simp only at h
+        split at h
+        · exact ih _ h
+        · rename_i hn; simp at h; rw [← h.1]; exact hn
+    exact this _ _ hs
+
+/-- … and joins the seen set, so that it is never handed out (or chosen as a flag name) again -/
+theorem fresh_joins_seen (st : BState) (p : Name) (h : (freshVar st p).1.failed = none) :
+    (freshVar st p).2 ∈ (freshVar st p).1.seen := by
+  unfold freshVar at h ⊢
+  split
+  · simp
+  · rename_i hs; simp [hs] at h
+
+/-- statements emitted inside `else_` are guarded by the negation of the flag of the `if_` block
+    closed immediately before -/
+theorem else_negates_last_if (st : BState) (c : Expr) (h : st.lastIf = some c) :
+    (step st .elseBegin).condStack = st.condStack ++ [.lnot c] := by
+  simp [step, h]
+
+/-! non-vacuity: `j <- 2; a[j] <- 1; y <- a[0]; yield y` — the conflict on `j` (read only in the
+    subscript of a left-hand side) is an edge -/
+def exOps : List BOp := [
+  .stmt (.assign "j" none (.const (.int 2)) []),
+  .stmt (.assign "a" (some (.var "j")) (.const (.int 1)) []),
+  .stmt (.assign "y" none (.sub (.var "a") (.const (.int 0))) [])]
+example : (run exOps).out.map (·.2) = [[], [0], [1]] := by decide
+
 end Dagrt.C02
